@@ -165,7 +165,7 @@ def main():
                 got = ['exc', type(e).__name__, str(e)[:60]]
             counts['outcomes'][got[0]] = counts['outcomes'].get(got[0], 0) + 1
             where = dict(fam=fam, impl=impl, is_set=is_set, sizes=[job['leaf'], job['internal']], history=list(hist))
-            want = step['out']
+            want = step['out'] if impl == 'c' else step.get('pout', step['out'])
             if got[0] not in ('-', 'entry', 'stop', 'RuntimeError', 'IndexError', 'len'):
                 mism.append(dict(where, kind='outcome-outside-the-property', real=got))
             elif got[0] == 'entry' and any(isinstance(x, str) for x in got[1:]):
@@ -174,7 +174,7 @@ def main():
                                         (got[1] is not None and got[2] is not None and not is_set and got[2] not in ever.get(got[1], ()))):
                 # "yields some entry": a key that was stored at some time, with a value that key has held
                 mism.append(dict(where, kind='entry-was-never-stored', real=got, held={k: sorted(v) for k, v in ever.items()}))
-            elif impl == 'c' and exact:
+            elif (impl == 'c' and exact) or (impl == 'py' and not evict and 'pout' in step):
                 # exact: same outcome; of an entry the recorded component(s)
                 ok = got[0] == want[0]
                 if ok and got[0] == 'entry':
@@ -198,7 +198,7 @@ def main():
                     except Exception as e:
                         again = ['exc', type(e).__name__]
                     counts['outcomes']['again-' + again[0]] = counts['outcomes'].get('again-' + again[0], 0) + 1
-                    if (again != got) if (impl == 'c' and exact) else (again[0] not in ('entry', 'stop', 'RuntimeError', 'IndexError')):
+                    if (again != got) if ((impl == 'c' and exact) or (impl == 'py' and not evict)) else (again[0] not in ('entry', 'stop', 'RuntimeError', 'IndexError')):
                         mism.append(dict(where, kind='sticky-outcome', model=got, real=again))
                         break
             if committed:
